@@ -57,10 +57,11 @@ def np_array(kind, vals):
         return np.array(["NaT" if v is None else v for v in vals], dtype="datetime64[ns]")
     if kind == "td":
         return np.array(["NaT" if v is None else v for v in vals], dtype="timedelta64[s]")
-    if kind in ("o", "oi", "ob"):
+    if kind in ("o", "oi", "ob", "obn"):
         a = np.empty(len(vals), dtype=object)
         for j, v in enumerate(vals):
-            a[j] = v
+            # obn: the cells are NumPy scalars rather than Python objects (what element-wise indexing of a bool array leaves)
+            a[j] = v if (kind != "obn" or v is None) else np.bool_(v)
         return a
     if kind == "y":
         n = max([len(v) for v in vals] + [1])
@@ -180,7 +181,7 @@ def pcell(kind, v):
         return float(v)
     if kind in ("i", "i32", "i8", "u8", "oi"):
         return int(v)
-    if kind in ("b", "ob"):
+    if kind in ("b", "ob", "obn"):
         return bool(v)
     if kind in DT_UNITS:
         return ("T", iso_to_us(v))
@@ -295,7 +296,7 @@ def kind_dtype_tag(kind):
     return {"f": "float64", "f32": "float32", "i": "int64", "i32": "int32", "i8": "int8", "u8": "uint8", "b": "bool", "s": "string",
             "u": "U", "d": "datetime64[D]", "t": "datetime64[us]", "tm": "datetime64[ms]",
             "ts": "datetime64[s]", "tn": "datetime64[ns]", "td": "timedelta64[s]", "o": "object", "oi": "object",
-            "ob": "object", "y": "S"}[kind]
+            "ob": "object", "obn": "object", "y": "S"}[kind]
 
 
 # -- snapshots ------------------------------------------------------------------------------
